@@ -1,6 +1,6 @@
 \* generator for the h2conn family: real octet counts, seeded simulation
 CONSTANTS
-  MaxSidC = 5
+  MaxSidC = 7
   MaxWin = 2147483647
   MfsMin = 16384
   MfsMax = 16777215
@@ -11,6 +11,7 @@ CONSTANTS
   MFS0 = 16384
   MAXS = @MAXS@
   SidsUsed = @SIDS@
+  ESs = @ESS@
   CKinds = @KINDS@
   Reqs = @REQS@
   Trailers = @TRAILERS@
